@@ -71,8 +71,8 @@ Definition f_fuel : nat := 0.
 Definition fop := op fargs str.
 
 Definition f_step := step fargs str str fshapes str fa_ns fa_ex f_track f_reader_ns f_profile f_shex
-                          f_add_examples f_shexc_lines f_shacl_text f_profile_text f_rand f_fuel.
-Definition f_init := init fargs str str fshapes.
+                          f_add_examples f_shexc_lines f_shacl_text f_profile_text f_rand f_fuel str_eqb.
+Definition f_init := init fargs str str fshapes str.
 Definition f_run := run fargs str str fshapes str fa_ns fa_ex f_track f_reader_ns f_profile f_shex
-                        f_add_examples f_shexc_lines f_shacl_text f_profile_text f_rand f_fuel.
-Definition f_dom := C18_dom fargs str fa_ex str_eqb.
+                        f_add_examples f_shexc_lines f_shacl_text f_profile_text f_rand f_fuel str_eqb.
+Definition f_dom := C18_dom fargs str.
